@@ -297,3 +297,14 @@ def _(v):
     v.prove("wrong_size_refused", not accepted, detail=repr(accepted[:3]))
     ok = all(list(rs.as_per_substance_array(c)) == [float(i) for i in range(n)] for c in (np.arange(n, dtype=float), np.arange(n), list(range(n)), tuple(range(n))))
     v.prove("right_size_same_numbers", ok)
+    # the other direction: a sequence that is too short or too long is no per-substance sequence either (zip would silently drop the rest)
+    took = []
+    for seq in ([1.0], list(range(n - 1)), list(range(n + 1)), np.arange(n + 3, dtype=float), ()):
+        try:
+            took.append((len(seq), rs.as_per_substance_dict(seq)))
+        except Exception:
+            pass
+    v.prove("dict_from_a_wrong_sized_sequence_refused", not took, detail=repr(took[:2]))
+    vals = [7.5, 0.25, 3.0, 11.0, 2.0][:n]
+    v.prove("dict_from_a_right_sized_sequence", rs.as_per_substance_dict(vals) == dict(zip(rs.substances, vals)) and
+            list(rs.as_per_substance_array(rs.as_per_substance_dict(vals))) == vals)
